@@ -18,9 +18,12 @@ Proved (all graphs, all fresh keys):
 Freshness of the keys handed out by the slot map (`k ∉` live keys) is a hypothesis (slotmap crate, trusted; the
 driver's LIFO free-list model reproduces the real keys exactly in the correspondence check).
 
+`merge_modules` / `remove_module_boundary`: `Props/C20Modules.lean` (stitching per port key keeps the outer ports,
+every other wire survives, the fold over the module-boundary nodes).
+
 PARTIAL: `DiMulValidPreservedStatement` (assert_valid preserved by remove/insert-intermediate-vertex) is proved for
-`insert_edge` only; `merge_modules` and the serde JSON round trip are covered by correspondence + oracle only
-(the round trip cannot be modelled; finding F20: `#var` markers inside operator arguments are lost).
+`insert_edge` only; the serde JSON round trip is covered by correspondence + oracle only (it cannot be modelled;
+finding F20 — `#var` markers inside operator arguments were lost — is fixed in /repo).
 -/
 import HvPart.Model.DiMul
 
